@@ -7,7 +7,8 @@ import (
 
 func main() {
 	runner.Main(map[string]runner.Entry{
-		"Check_Codec":         {c15.Setup, c15.Check_Codec},
-		"Check_TemplateValue": {c15.Setup, c15.Check_TemplateValue},
+		"Check_Codec":             {c15.Setup, c15.Check_Codec},
+		"Check_TemplateValue":     {c15.Setup, c15.Check_TemplateValue},
+		"Check_IncrementalRecord": {c15.Setup, c15.Check_IncrementalRecord},
 	})
 }
